@@ -7,6 +7,7 @@ use std::ops::{Div, Mul};
 
 pub fn collect(blocks: &mut Vec<Block>, setup: &mut Report) {
     crate::for_each_type!(add_type, blocks, setup);
+    crate::for_each_c08_extra_type!(add_type, blocks, setup);
 }
 
 pub trait Scalable: Quantity + Mul<A, Output = Self> + Div<A, Output = Self>
